@@ -55,11 +55,12 @@ def rich_schema():
                          key=fields.ID(stored=True, unique=True), num=fields.NUMERIC(int, sortable=True),
                          price=fields.NUMERIC(float), when=fields.DATETIME(sortable=True), flag=fields.BOOLEAN,
                          ng=fields.NGRAM(minsize=2, maxsize=3), ngw=fields.NGRAMWORDS(minsize=2, maxsize=3),
-                         st=fields.STORED)
+                         st=fields.STORED, dec=fields.NUMERIC(int, decimal_places=2))
 
 
 def rich_index():
     import datetime
+    import decimal
     from whoosh.filedb.filestore import RamStorage
     ix = RamStorage().create_index(rich_schema())
     for part in ([0, 1], [2]):
@@ -67,7 +68,7 @@ def rich_index():
         for i in part:
             w.add_document(body=u"a ab b* yes now %d" % i, title=u"ab a é", tag=u"a,ab", key=u"k%d" % i, num=i - 1,
                            price=1.5 * i, when=datetime.datetime(2010, 1, 2 + i), flag=bool(i % 2), ng=u"abab",
-                           ngw=u"ab abab", st=u"x")
+                           ngw=u"ab abab", st=u"x", dec=decimal.Decimal("1.50"))
         w.commit(merge=False)
     return ix
 
